@@ -908,6 +908,10 @@ class Intrinsics:
                 zs.append(containers.obj_key(a))
             elif is_boollike(a):
                 zs.append(as_z3bool(a))
+            elif (isinstance(a, Fraction) or is_sym_real(a)) and not is_intlike(a):
+                # c02x: a rational argument (Fraction) keeps its Real sort
+                from .values import as_z3real
+                zs.append(as_z3real(a))
             else:
                 zs.append(as_z3int(a))
         return zs
@@ -979,6 +983,10 @@ class Intrinsics:
         caller, its postcondition an assumption.  The lemma itself is verified separately (it is a contract).
         """
         ex = self.ex
+        if getattr(P, 'hints_off', 0):
+            # c02x: inside the postcondition of a callee at a modular call site the lemma is a proof hint of the
+            # callee's own proof (like case_split): nothing is obliged and nothing extra is assumed
+            return True
         c = ex.contracts.get(name)
         if c is None or c.kind != 'lemma':
             raise InterpError(f'apply_lemma: no lemma named {name}')
